@@ -108,6 +108,10 @@ func EndBlocker(ctx sdk.Context, k keeper.Keeper) {
 						sdk.NewAttribute(types.AttributeKeyConsumer, requestContext.Consumer),
 					),
 				})
+				// no provider can be priced: skip this batch like a batch without enough
+				// providers, and do not leave the entry behind in the new request batch queue
+				k.SkipCurrentRequestBatch(ctx, requestContextID, *requestContext)
+				k.DeleteNewRequestBatch(ctx, requestContextID, ctx.BlockHeight())
 				return
 			}
 
